@@ -51,6 +51,6 @@ int main(void) {
 	for(e = 0; e < 2048; e++) for(s = 0; s < 2; s++) for(i = 0; i < nm; i++)
 		check(((uint64_t)s << 63) | ((uint64_t)e << 52) | mant[i]);
 	for(i = 0; i < 300000; i++) { x ^= x << 13; x ^= x >> 7; x ^= x << 17; check(x); }
-	printf("VF-GRID: evaluated %llu failed %llu first_fail %016llx\n", evaluated, failed, (unsigned long long)first_fail);
+	printf("VF-GRID: evaluated %llu failed %llu first_fail %016llx\n", evaluated, failed, (unsigned long long)first_fail); fflush(stdout);
 	return failed ? 1 : 0;
 }
